@@ -286,22 +286,53 @@ def r13_1(chk):
         lp = loops[0]
         pv = lp.target.id
         seq = [norm(s) for s in lp.body]
-        inc = '3*%s.m*%s.n' % (pv, pv)
-        want = ['%s.row_start=row0' % pv, '%s.col_start=col0' % pv, 'row0+=' + inc, 'col0+=' + inc, '%s.row_end=row0' % pv, '%s.col_end=col0' % pv]
-        # order constraints: starts before increments before ends
-        def idx(x):
-            return seq.index(x) if x in seq else None
-        ii = [idx(x) for x in want]
-        ok = None not in ii and max(ii[0], ii[1]) < min(ii[2], ii[3]) and max(ii[2], ii[3]) < min(ii[4], ii[5]) and len(seq) == 6
         det = str(seq)
-        pre = [norm(s) for s in init.body if isinstance(s, ast.Assign) and norm(s.targets[0]) in ('row0', 'col0')]
-        ok = ok and sorted(pre) == ['col0=0', 'row0=0']
+        # counters: locals set to 0 before the loop; the body is executed symbolically: value of a counter = number of times the
+        # panel's own 3*m*n has been added to it in this iteration (0 = the sum over the previous panels)
+        counters = {}
+        for st in init.body:
+            if st is lp:
+                break
+            if isinstance(st, ast.Assign) and isinstance(st.value, ast.Constant) and st.value.value == 0:
+                for t in st.targets:
+                    if isinstance(t, ast.Name):
+                        counters[t.id] = 0
+        got_attr = {}
+        bad = []
+        for st in lp.body:
+            if isinstance(st, ast.Assign) and isinstance(st.value, ast.Name) and st.value.id in counters:
+                for t in st.targets:
+                    if isinstance(t, ast.Attribute) and norm(t.value) == pv:
+                        got_attr[t.attr] = (st.value.id, counters[st.value.id])
+                    else:
+                        bad.append(norm(st))
+            elif isinstance(st, ast.AugAssign) and isinstance(st.op, ast.Add) and isinstance(st.target, ast.Name) and st.target.id in counters \
+                    and pyrules.same_expr(st.value, '3*%s.m*%s.n' % (pv, pv)):
+                counters[st.target.id] += 1
+            else:
+                bad.append(norm(st))
+        ok = not bad and {k: v[1] for k, v in got_attr.items()} == {'row_start': 0, 'col_start': 0, 'row_end': 1, 'col_end': 1} \
+            and all(counters[v[0]] == 1 for v in got_attr.values())
     chk.ob('R13.1', ok, ASSEMBLY, 'PanelAssembly.__init__', 'running offsets', detail=det,
            expected='row_start = col_start = sum of 3*m*n of the previous panels; row_end = row_start + 3*m*n',
            sample='PanelAssembly offsets: ' + det)
     gs = m.method('PanelAssembly', 'get_size')
     rets = [norm(n.value) for n in ast.walk(gs) if isinstance(n, ast.Assign)]
-    chk.ob('R13.1', rets == ['sum([3*p.m*p.n for p in self.panels])'.replace(' ', '')] or rets == ['sum([3*p.m*p.nforpinself.panels])'], ASSEMBLY, 'PanelAssembly.get_size', 'size = sum of 3*m*n', got=rets)
+    oks = False
+    sums = [n for n in ast.walk(gs) if isinstance(n, ast.Call) and dotted(n.func) == 'sum' and len(n.args) == 1 and isinstance(n.args[0], (ast.ListComp, ast.GeneratorExp))]
+    if len(sums) == 1 and len(sums[0].args[0].generators) == 1 and not sums[0].args[0].generators[0].ifs:
+        g = sums[0].args[0].generators[0]
+        v = norm(g.target)
+        oks = norm(g.iter) == 'self.panels' and pyrules.same_expr(sums[0].args[0].elt, '3*%s.m*%s.n' % (v, v)) and \
+            any(isinstance(n, ast.Assign) and norm(n.targets[0]) == 'self.size' for n in ast.walk(gs))
+    lps = [n for n in gs.body if isinstance(n, ast.For) and norm(n.iter) == 'self.panels' and isinstance(n.target, ast.Name)]
+    if not oks and len(lps) == 1 and len(lps[0].body) == 1 and isinstance(lps[0].body[0], ast.AugAssign) and isinstance(lps[0].body[0].op, ast.Add):
+        acc = norm(lps[0].body[0].target)
+        v = lps[0].target.id
+        init0 = [n for n in gs.body if isinstance(n, ast.Assign) and norm(n.targets[0]) == acc and norm(n.value) == '0' and n.lineno < lps[0].lineno]
+        oks = pyrules.same_expr(lps[0].body[0].value, '3*%s.m*%s.n' % (v, v)) and len(init0) == 1 and \
+            any(isinstance(n, ast.Assign) and norm(n.targets[0]) == 'self.size' and norm(n.value) == acc for n in gs.body)
+    chk.ob('R13.1', oks, ASSEMBLY, 'PanelAssembly.get_size', 'size = sum of 3*m*n', expected='self.size = sum over self.panels of 3*m*n', got=rets)
     nums = pyrules.modeldb_nums()
     chk.ob('R13.1', all(v == 3 for k, v in nums.items() if k != 'plate_w'), pyrules.MODELDB, 'db', 'num == 3 for the models admissible in assemblies', got=nums)
     pm = module(pyrules.PANEL)
